@@ -196,7 +196,7 @@ func (r *c18Run) final() http.Handler {
 			zsim.Yield("handler")
 			switch op {
 			case 0:
-				w.WriteHeader([]int{200, 201, 404, 500, 302}[q.args[k]%5])
+				w.WriteHeader([]int{200, 201, 404, 500, 302, 101, 103, 204}[q.args[k]%8])
 			case 1:
 				w.Write(bytes.Repeat([]byte{'b'}, 1+q.args[k]%40))
 			case 2:
@@ -301,6 +301,11 @@ func mkParent(kind int, w io.Writer) zerolog.Logger {
 		return zerolog.New(w).With().Str("pad", strings.Repeat("p", 491)).Logger()
 	case 3:
 		return zerolog.New(w).With().Str("svc", "api").Logger().Level(zerolog.InfoLevel)
+	case 4:
+		// more than 500 bytes of context: the slice was re-grown and has spare capacity again
+		return zerolog.New(w).With().Str("pad", strings.Repeat("q", 600)).Str("svc", "api").Logger()
+	case 5:
+		return zerolog.New(w).With().Str("pad", strings.Repeat("q", 1500)).Logger()
 	}
 	return zerolog.New(w)
 }
@@ -318,7 +323,7 @@ func (c18World) Run(prop string, ch *zsim.Choices, trace bool) *RunResult {
 		zerolog.DefaultContextLogger = nil
 		zerolog.TimestampFunc = func() time.Time { return refTime }
 		sink := c18Sink{r}
-		pk := ch.Intn(4)
+		pk := ch.Intn(6)
 		parent := mkParent(pk, sink)
 		np := ch.Intn(8)
 		var picks []int
